@@ -127,6 +127,8 @@ def programs(draw, opts=None):
 
             if any(readable(v) for v in prog["vars"]):
                 kinds += ["var", "var"]
+            if opts.get("comp", True) and any(v["mod"] == here_mod and v["name"] not in here_params for v in prog["vars"]):
+                kinds.append("comp")
             if i > 0:
                 kinds += ["call", "call", "ho"]
                 if allow_keep:
@@ -140,6 +142,8 @@ def programs(draw, opts=None):
                     body.append(["var", vi, "modattr"])
                 else:
                     body.append(["var", vi, "method"] if draw(st.integers(0, 3)) == 0 else ["var", vi])
+            elif kind == "comp":
+                body.append(["comp", draw(st.sampled_from([vi for vi, v in enumerate(prog["vars"]) if v["mod"] == here_mod and v["name"] not in here_params]))])
             elif kind == "ext":
                 body.append(["ext", draw(st.integers(0, 2))])
             elif kind == "call":
@@ -244,7 +248,7 @@ def programs(draw, opts=None):
         f = {"name": f"f{i}", "mod": mod, "params": params, "ver": 0, "pad": 0,
              "data": new_path() if data else None, "body": []}
         if opts.get("rets"):
-            f["ret"] = draw(st.sampled_from(["tuple", "tuple", "text", "bytes"]))
+            f["ret"] = draw(st.sampled_from(["tuple", "tuple", "text", "bytes", "none"]))
         if opts.get("indent", True) and draw(st.integers(0, 3)) == 0:
             f["ind"] = draw(st.integers(0, 1))
         prog["funcs"].append(f)
@@ -291,13 +295,13 @@ def edits(draw, prog, root, kinds=None, opts=None):
     """One model-level edit applicable to prog; returns the JSON edit."""
     opts = opts or {}
     cl = M.closure(prog, root)
-    kinds = kinds or ["setvar", "bump", "pad", "setlit", "unrelated", "reorder", "ext_pad", "bumpcls", "rename_fun", "indent"]
+    kinds = kinds or ["setvar", "bump", "pad", "setlit", "unrelated", "reorder", "ext_pad", "bumpcls", "rename_fun", "indent", "tcomment"]
     avail = []
     vpool = _var_pool(opts)
     for k in kinds:
         if k == "setvar" and prog["vars"]:
             avail.append(k)
-        elif k in ("bump", "pad", "rename_fun"):
+        elif k in ("bump", "pad", "rename_fun", "tcomment"):
             avail.append(k)
         elif k == "indent" and any("ind" in f for f in prog["funcs"]):
             avail.append(k)
@@ -311,7 +315,12 @@ def edits(draw, prog, root, kinds=None, opts=None):
     if k == "setvar":
         # prefer variables inside the closure of the root (a cache hit would then be wrong)
         inside = sorted(cl["v"])
-        vi = draw(st.sampled_from(inside)) if inside and draw(st.integers(0, 3)) else draw(st.integers(0, len(prog["vars"]) - 1))
+        # variables whose NAME occurs in the reachable code without being read (comprehension variables): editing them must change nothing
+        near = sorted({stt[1] for fi_ in cl["f"] for stt in prog["funcs"][fi_]["body"] if stt[0] == "comp"} - set(inside))
+        if near and draw(st.integers(0, 3)) == 0:
+            vi = draw(st.sampled_from(near))
+        else:
+            vi = draw(st.sampled_from(inside)) if inside and draw(st.integers(0, 3)) else draw(st.integers(0, len(prog["vars"]) - 1))
         cur = canon_key(dec(prog["vars"][vi]["val"]))
         cands = [v for v in vpool if canon_key(v) != cur]
         return ["setvar", vi, enc(draw(st.sampled_from(cands)))]
@@ -323,7 +332,7 @@ def edits(draw, prog, root, kinds=None, opts=None):
         inside = sorted(cl["f"])
         fi = draw(st.sampled_from(inside)) if draw(st.integers(0, 3)) else draw(st.integers(0, len(prog["funcs"]) - 1))
         return ["rename_fun", fi, prog["funcs"][fi]["name"] + "r"]
-    if k in ("bump", "pad"):
+    if k in ("bump", "pad", "tcomment"):
         inside = sorted(cl["f"])
         fi = draw(st.sampled_from(inside)) if draw(st.integers(0, 3)) else draw(st.integers(0, len(prog["funcs"]) - 1))
         return [k, fi]
